@@ -1,9 +1,938 @@
-import KDVerif.Model.Labels
+/-
+C16 — Label-rewriting wrappers are coherent, in range and reproducible.
+
+Model: `KDVerif/Model/Labels.lean` (one constructor / per-sample accessor / bulk accessor per wrapper, mirroring the
+code after the three repairs of this round). `forRange n f` is the list comprehension `[f(i) for i in range(n)]`
+with Python's exception order, so `getall = forRange len getitem` reads "the bulk accessor returns exactly what
+the per-sample accessor returns, entry by entry, and raises exactly when (and what) the first failing per-sample
+call raises". `InRange nc l` is `l = -1 ∨ 0 ≤ l < nc`. Tapes are universally quantified; the generators'
+contracts appear as hypotheses.
+
+Interpretation: bulk = per-sample is claimed for the eight wrappers that *rewrite* labels; the two *encoding*
+wrappers (label smoothing, one-hot) define no bulk accessor on purpose: their bulk path yields the class index and
+the statement is that this index is the (strict, for smoothing < 1) argmax of the per-sample encoding.
+-/
+import KDVerif.Lemmas.Labels
+import KDVerif.Lemmas.LabelsEnc
 
 namespace KDVerif.C16
 open KDVerif.Labels
 
-/-- placeholder while the harness is brought up -/
-theorem swap_bulk_is_table (st : SW) : swGetall st = .ok st.classes := rfl
+/-! ## ClassGroupsWrapper -/
+
+/-- bulk accessor = per-sample accessor, for every state (any table, any layout, any group size) -/
+theorem classGroups_bulk_eq_items (st : CG) : cgGetall st = forRange st.labels.length (cgGetitem st) :=
+  forEnum_eq_forRange (cgMap st) (cgGetitem st) st.labels
+    (fun j hj => by simp [cgGetitem, dsGet, listGet_of_lt _ _ hj])
+
+/-- **range**: if the group size divides the class count, every label the wrapper produces (per sample or in bulk)
+    lies in `0 .. nc-1`, the range announced by the (delegated) class-shape query — for every layout and for every
+    result of `rng.permuted` that is a rearrangement of the group table -/
+theorem classGroups_in_range (labels : List Int) (nc cpg : Nat) (shuffle : Bool) (permuted : List Nat) (st : CG)
+    (hdiv : cpg ∣ nc) (hperm : shuffle = true → permuted.Perm (cgTable0 nc cpg))
+    (hctor : cgCtor labels nc cpg shuffle permuted = .ok st) :
+    (∀ i l, cgGetitem st i = .ok l → 0 ≤ l ∧ l < (nc : Int)) ∧
+    (∀ out, cgGetall st = .ok out → ∀ l ∈ out, 0 ≤ l ∧ l < (nc : Int)) := by
+  unfold cgCtor at hctor
+  by_cases h0 : cpg = 0
+  · simp [h0] at hctor
+  · simp only [h0, if_false, Except.ok.injEq] at hctor
+    have hpos : 0 < cpg := Nat.pos_of_ne_zero h0
+    obtain ⟨k, rfl⟩ := hdiv
+    have hq : ceilDiv (cpg * k) cpg = k := ceilDiv_of_dvd cpg k hpos
+    have htab : ∀ g ∈ st.table, g < k := by
+      intro g hg
+      rw [← hctor] at hg
+      simp only at hg
+      rw [← hq]
+      cases hs : shuffle with
+      | true =>
+        rw [hs] at hg
+        simp only [if_true] at hg
+        exact mem_cgTable0 ((hperm hs).mem_iff.mp hg)
+      | false =>
+        rw [hs] at hg
+        exact mem_cgTable0 (by simpa using hg)
+    have hcpg : st.cpg = cpg := by rw [← hctor]
+    have hmap : ∀ i c l, cgMap st i c = .ok l → 0 ≤ l ∧ l < ((cpg * k : Nat) : Int) := by
+      intro i c l h
+      unfold cgMap at h
+      cases hg : pyGet st.table c with
+      | error e => rw [hg] at h; cases h
+      | ok g =>
+        rw [hg] at h
+        cases hw : listGet st.within i with
+        | error e => rw [hw] at h; cases h
+        | ok w =>
+          rw [hw] at h
+          simp only [Except.ok.injEq] at h
+          subst h
+          have hgk := htab g (pyGet_mem hg)
+          rw [hcpg]
+          have h1 : (g + 1) * cpg ≤ k * cpg := Nat.mul_le_mul_right cpg hgk
+          rw [Nat.succ_mul] at h1
+          have h2 : w % cpg < cpg := Nat.mod_lt w hpos
+          have h3 : cpg * k = k * cpg := Nat.mul_comm _ _
+          constructor
+          · exact Int.natCast_nonneg _
+          · exact Int.ofNat_lt.mpr (by omega)
+    constructor
+    · intro i l h
+      unfold cgGetitem at h
+      cases hd : dsGet st.labels i with
+      | error e => rw [hd] at h; cases h
+      | ok c => rw [hd] at h; exact hmap i c l h
+    · intro out h l hl
+      obtain ⟨i, c, _, hc⟩ := forEnumFrom_mem st.labels 0 out h l hl
+      exact hmap i c l hc
+
+/-- no accessor raises for labels inside `0 .. nc-1`: the group table has at least `nc` entries (exactly `nc` when the
+    group size divides the class count) and the per-class counter has one entry per sample -/
+theorem classGroups_total (labels : List Int) (nc cpg : Nat) (shuffle : Bool) (permuted : List Nat) (st : CG)
+    (hl : ∀ c ∈ labels, 0 ≤ c ∧ c < (nc : Int)) (hperm : shuffle = true → permuted.Perm (cgTable0 nc cpg))
+    (hctor : cgCtor labels nc cpg shuffle permuted = .ok st) :
+    ∃ out, cgGetall st = .ok out ∧ out.length = labels.length := by
+  unfold cgCtor at hctor
+  by_cases h0 : cpg = 0
+  · simp [h0] at hctor
+  · simp only [h0, if_false, Except.ok.injEq] at hctor
+    have hpos : 0 < cpg := Nat.pos_of_ne_zero h0
+    have htl : nc ≤ st.table.length := by
+      rw [← hctor]
+      simp only
+      have := le_ceilDiv_mul nc cpg hpos
+      cases hs : shuffle with
+      | true => simp only [if_true]; rw [(hperm hs).length_eq, cgTable0_length]; exact this
+      | false => simp only [Bool.false_eq_true, if_false]; rw [cgTable0_length]; exact this
+    have hwl : st.within.length = labels.length := by
+      rw [← hctor]; exact idxWithinGo_length labels []
+    have hlab : st.labels = labels := by rw [← hctor]
+    rw [classGroups_bulk_eq_items, hlab]
+    obtain ⟨ys, hys, hlen⟩ := mapE_total (f := cgGetitem st) (List.range labels.length) (by
+      intro i hi
+      have hi' : i < labels.length := List.mem_range.mp hi
+      have hc := hl labels[i] (List.getElem_mem hi')
+      have hc2 : labels[i].toNat < st.table.length := by omega
+      have hi2 : i < st.within.length := by omega
+      refine ⟨((st.table[labels[i].toNat] * st.cpg + st.within[i] % st.cpg : Nat) : Int), ?_⟩
+      unfold cgGetitem cgMap
+      simp only [hlab, dsGet, listGet_of_lt _ _ hi', pyGet_of_lt _ _ hc.1 hc2, listGet_of_lt _ _ hi2])
+    exact ⟨ys, hys, by simpa using hlen⟩
+
+/-- non-vacuity: 6 classes in groups of 2, shuffled table, a layout with a repeated class -/
+example : ∃ st, cgCtor [0, 5, 0, 3] 6 2 true [1, 0, 2, 2, 0, 1] = .ok st ∧
+    [1, 0, 2, 2, 0, 1].Perm (cgTable0 6 2) ∧ cgGetall st = .ok [2, 2, 3, 4] :=
+  ⟨_, rfl, by decide, by decide⟩
+
+/-! ## RandomSuperclassWrapper -/
+
+theorem randomSuperclass_bulk_eq_items (st : RS) : rsGetall st = forRange st.labels.length (rsGetitem st) :=
+  forEnum_eq_forRange (rsMap st) (rsGetitem st) st.labels
+    (fun j hj => by simp [rsGetitem, dsGet, listGet_of_lt _ _ hj])
+
+/-- **range**: every produced label is below `getshape_class()[0] = ceil(nc / classes_per_superclass) * splits`,
+    for every class permutation drawn, every split bookkeeping and every layout (`splits ≥ 1`) -/
+theorem randomSuperclass_in_range (labels : List Int) (nc cps splits : Nat) (shuffle : Bool) (perm1 perm2 : List Nat)
+    (st : RS) (hs : 1 ≤ splits) (hperm : shuffle = true → perm1.Perm (List.range nc))
+    (hctor : rsCtor labels nc cps splits shuffle perm1 perm2 = .ok st) :
+    (∀ i l, rsGetitem st i = .ok l → 0 ≤ l ∧ l < (rsShape st : Int)) ∧
+    (∀ out, rsGetall st = .ok out → ∀ l ∈ out, 0 ≤ l ∧ l < (rsShape st : Int)) := by
+  unfold rsCtor at hctor
+  by_cases h0 : cps = 0
+  · simp [h0] at hctor
+  · simp only [h0, if_false, Except.ok.injEq] at hctor
+    have hpos : 0 < cps := Nat.pos_of_ne_zero h0
+    have hperm' : ∀ p ∈ st.perm, p < nc := by
+      intro p hp
+      rw [← hctor] at hp
+      simp only at hp
+      cases hsf : shuffle with
+      | true =>
+        rw [hsf] at hp
+        simp only [if_true] at hp
+        exact List.mem_range.mp ((hperm hsf).mem_iff.mp hp)
+      | false =>
+        rw [hsf] at hp
+        exact List.mem_range.mp (by simpa using hp)
+    have hcps : st.cps = cps := by rw [← hctor]
+    have hog : st.og = ceilDiv nc cps := by rw [← hctor]
+    have hsp : st.splits = splits := by rw [← hctor]
+    have hwithin : st.within = none → splits = 1 := by
+      intro hn
+      rw [← hctor] at hn
+      simp only at hn
+      by_cases h1 : splits > 1
+      · simp [h1] at hn
+      · omega
+    have hmap : ∀ i c l, rsMap st i c = .ok l → 0 ≤ l ∧ l < (rsShape st : Int) := by
+      intro i c l h
+      unfold rsMap at h
+      cases hg : pyGet st.perm c with
+      | error e => rw [hg] at h; cases h
+      | ok p =>
+        rw [hg] at h
+        simp only at h
+        have hp := hperm' p (pyGet_mem hg)
+        have hdiv := div_lt_ceilDiv p nc cps hpos hp
+        unfold rsShape
+        rw [hog, hsp]
+        cases hw : st.within with
+        | none =>
+          rw [hw] at h
+          simp only [Except.ok.injEq] at h
+          subst h
+          rw [hcps, hwithin hw]
+          exact ⟨Int.natCast_nonneg _, Int.ofNat_lt.mpr (by omega)⟩
+        | some ws =>
+          rw [hw] at h
+          simp only at h
+          cases hl : listGet ws i with
+          | error e => rw [hl] at h; cases h
+          | ok w =>
+            rw [hl] at h
+            simp only [Except.ok.injEq] at h
+            subst h
+            rw [hcps, hsp, hog]
+            have h2 : w % splits < splits := Nat.mod_lt w (by omega)
+            have h3 : (w % splits + 1) * ceilDiv nc cps ≤ splits * ceilDiv nc cps := Nat.mul_le_mul_right _ h2
+            rw [Nat.succ_mul] at h3
+            have h4 : ceilDiv nc cps * splits = splits * ceilDiv nc cps := Nat.mul_comm _ _
+            exact ⟨Int.natCast_nonneg _, Int.ofNat_lt.mpr (by omega)⟩
+    constructor
+    · intro i l h
+      unfold rsGetitem at h
+      cases hd : dsGet st.labels i with
+      | error e => rw [hd] at h; cases h
+      | ok c => rw [hd] at h; exact hmap i c l h
+    · intro out h l hl
+      obtain ⟨i, c, _, hc⟩ := forEnumFrom_mem st.labels 0 out h l hl
+      exact hmap i c l hc
+
+/-- non-vacuity: 5 classes, superclasses of 2, 2 splits, both permutations drawn -/
+example : ∃ st, rsCtor [0, 4, 0, 2] 5 2 2 true [3, 0, 4, 1, 2] [2, 0, 3, 1] = .ok st ∧
+    [3, 0, 4, 1, 2].Perm (List.range 5) ∧ rsShape st = 6 ∧ rsGetall st = .ok [4, 1, 1, 2] :=
+  ⟨_, rfl, by decide, by decide, by decide⟩
+
+/-! ## SwapLabelWrapper -/
+
+/-- bulk = per-sample over `len(dataset)` entries, when the generator returned `size` entries per draw -/
+theorem swap_bulk_eq_items (labels : List Int) (p : Rat) (us : List Rat) (news : List Int) (st : SW)
+    (hus : us.length = labels.length) (hnews : news.length = labels.length)
+    (hctor : swCtor labels p us news = .ok st) :
+    swGetall st = forRange labels.length (swGetitem st) := by
+  unfold swCtor at hctor
+  by_cases hp : 0 ≤ p ∧ p ≤ 1
+  · simp only [hp, and_self, if_true, Except.ok.injEq] at hctor
+    have hlen : st.classes.length = labels.length := by
+      rw [← hctor]
+      simp [hus, hnews]
+    rw [← hlen]
+    exact (forRange_listGet st.classes).symm
+  · simp [hp] at hctor
+
+/-- **range**: swapped-in labels come from `integers(0, nc)`, kept labels are the original ones -/
+theorem swap_in_range (labels : List Int) (nc : Nat) (p : Rat) (us : List Rat) (news : List Int) (st : SW)
+    (hl : ∀ c ∈ labels, InRange nc c) (hn : ∀ v ∈ news, 0 ≤ v ∧ v < (nc : Int))
+    (hctor : swCtor labels p us news = .ok st) :
+    (∀ i l, swGetitem st i = .ok l → InRange nc l) ∧ (∀ out, swGetall st = .ok out → ∀ l ∈ out, InRange nc l) := by
+  unfold swCtor at hctor
+  by_cases hp : 0 ≤ p ∧ p ≤ 1
+  · simp only [hp, and_self, if_true, Except.ok.injEq] at hctor
+    have hall : ∀ l ∈ st.classes, InRange nc l := by
+      rw [← hctor]
+      apply zipWith_all
+      intro x hx y hy
+      by_cases hx1 : x.1 = true
+      · simp only [hx1, if_true]
+        exact Or.inr (hn x.2 (List.of_mem_zip hx).2)
+      · simp only [hx1]
+        exact hl y hy
+    constructor
+    · intro i l h
+      exact hall l (listGet_mem h)
+    · intro out h l hlm
+      simp only [swGetall, Except.ok.injEq] at h
+      subst h
+      exact hall l hlm
+  · simp [hp] at hctor
+
+/-- non-vacuity -/
+example : ∃ st, swCtor [0, -1, 2] (1 / 2) [1 / 4, 3 / 4, 1 / 8] [1, 1, 0] = .ok st ∧ swGetall st = .ok [1, -1, 0] :=
+  ⟨⟨[1, -1, 0], [true, false, true]⟩, by decide +kernel, by decide⟩
+
+/-! ## OverwriteClassesWrapper -/
+
+/-- the bulk accessor is the comprehension over the per-sample accessor (the repaired code) … -/
+theorem overwrite_bulk_eq_items (st : OW) : owGetall st = forRange st.n (owGetitem st) := rfl
+
+/-- … and therefore returns the overwriting table, not the wrapped dataset's labels -/
+theorem overwrite_bulk_is_table (labels classes : List Int) (st : OW) (hctor : owCtor labels classes = .ok st) :
+    owGetall st = .ok classes := by
+  unfold owCtor at hctor
+  by_cases h : classes.length = labels.length
+  · simp only [h, if_true, Except.ok.injEq] at hctor
+    subst hctor
+    unfold owGetall
+    simp only
+    rw [← h]
+    exact forRange_listGet classes
+  · simp [h] at hctor
+
+/-- **range**: the produced labels are the table's entries (in range iff the table given is) -/
+theorem overwrite_in_range (labels classes : List Int) (nc : Nat) (st : OW) (hc : ∀ c ∈ classes, InRange nc c)
+    (hctor : owCtor labels classes = .ok st) :
+    (∀ i l, owGetitem st i = .ok l → InRange nc l) ∧ (∀ out, owGetall st = .ok out → ∀ l ∈ out, InRange nc l) := by
+  have hb := overwrite_bulk_is_table labels classes st hctor
+  unfold owCtor at hctor
+  by_cases h : classes.length = labels.length
+  · simp only [h, if_true, Except.ok.injEq] at hctor
+    constructor
+    · intro i l hi
+      subst hctor
+      exact hc l (listGet_mem hi)
+    · intro out ho l hl
+      rw [hb] at ho
+      cases ho
+      exact hc l hl
+  · simp [h] at hctor
+
+example : ∃ st, owCtor [0, 1, 2] [2, -1, 0] = .ok st ∧ owGetall st = .ok [2, -1, 0] := ⟨_, rfl, by decide⟩
+
+/-! ## AllgatherClassWrapper -/
+
+/-- the bulk accessor applies the index map once: it is the comprehension over the per-sample accessor -/
+theorem allgather_bulk_eq_items (st : AG) : agGetall st = forRange st.labels.length (agGetitem st) := rfl
+
+/-- **domain**: for `0 < world_size ≤ len(dataset)` the constructor succeeds (the padding fits, the padded length is
+    a multiple of the world size), the index table has one entry per sample and every entry is a valid sample index -/
+theorem allgather_indices_ok (n W : Nat) (hW : 0 < W) (hWn : W ≤ n) :
+    ∃ ix, agIndices n W = .ok ix ∧ ix.length = n ∧ ∀ j ∈ ix, j < n := by
+  unfold agIndices
+  have hW0 : ¬ W = 0 := by omega
+  simp only [hW0, if_false]
+  have hpadlt := padCount_lt n W hW
+  have hdiv := pad_divides n W hW
+  by_cases hpad : padCount n W > 0
+  · simp only [hpad, if_true]
+    have hlen1 : (List.range n ++ (List.range n).take (padCount n W)).length = n + padCount n W := by
+      simp only [List.length_append, List.length_range, List.length_take]
+      omega
+    cases hr : rearrange (List.range n ++ (List.range n).take (padCount n W)) W with
+    | error e =>
+      unfold rearrange at hr
+      rw [hlen1] at hr
+      simp [hdiv] at hr
+    | ok ys =>
+      have hl := rearrange_length hr
+      rw [hlen1] at hl
+      refine ⟨_, rfl, ?_, ?_⟩
+      · rw [List.length_take]; omega
+      · intro j hj
+        have hj' := rearrange_mem hr j (List.mem_of_mem_take hj)
+        rcases List.mem_append.mp hj' with h | h
+        · exact List.mem_range.mp h
+        · exact List.mem_range.mp (List.mem_of_mem_take h)
+  · simp only [hpad, if_false]
+    have hp0 : padCount n W = 0 := by omega
+    rw [hp0, Nat.add_zero] at hdiv
+    cases hr : rearrange (List.range n) W with
+    | error e =>
+      unfold rearrange at hr
+      simp only [List.length_range] at hr
+      simp [hdiv] at hr
+    | ok ys =>
+      have hl := rearrange_length hr
+      refine ⟨_, rfl, ?_, ?_⟩
+      · simpa using hl
+      · intro j hj
+        exact List.mem_range.mp (rearrange_mem hr j hj)
+
+/-- **range**: every produced label is one of the wrapped dataset's labels (the wrapper only permutes them) -/
+theorem allgather_in_range (st : AG) (nc : Nat) (hl : ∀ c ∈ st.labels, InRange nc c) :
+    (∀ i l, agGetitem st i = .ok l → InRange nc l) ∧ (∀ out, agGetall st = .ok out → ∀ l ∈ out, InRange nc l) := by
+  have hitem : ∀ i l, agGetitem st i = .ok l → InRange nc l := by
+    intro i l h
+    unfold agGetitem at h
+    cases hj : listGet st.indices i with
+    | error e => rw [hj] at h; cases h
+    | ok j => rw [hj] at h; exact hl l (listGet_mem h)
+  refine ⟨hitem, ?_⟩
+  intro out h l hlm
+  obtain ⟨i, _, hi⟩ := mapE_mem _ out h l hlm
+  exact hitem i l hi
+
+/-- **domain, continued**: for `0 < world_size ≤ len(dataset)` no accessor raises — the bulk accessor returns one label
+    per sample -/
+theorem allgather_total (labels : List Int) (W : Nat) (st : AG) (hW : 0 < W) (hWn : W ≤ labels.length)
+    (hctor : agCtor labels W = .ok st) : ∃ out, agGetall st = .ok out ∧ out.length = labels.length := by
+  obtain ⟨ix, hix, hlen, hlt⟩ := allgather_indices_ok labels.length W hW hWn
+  unfold agCtor at hctor
+  rw [hix] at hctor
+  simp only [Except.ok.injEq] at hctor
+  subst hctor
+  unfold agGetall forRange
+  simp only
+  obtain ⟨ys, hys, hl⟩ := mapE_total (f := agGetitem ⟨labels, ix⟩) (List.range labels.length) (by
+    intro i hi
+    have hi' : i < ix.length := by rw [hlen]; exact List.mem_range.mp hi
+    have hj : ix[i] < labels.length := hlt _ (List.getElem_mem hi')
+    exact ⟨labels[ix[i]], by simp [agGetitem, listGet_of_lt _ _ hi', dsGet, listGet_of_lt _ _ hj]⟩)
+  exact ⟨ys, hys, by simpa using hl⟩
+
+/-- non-vacuity (the layout of the recorded counterexample: 7 samples on 2 ranks) -/
+example : ∃ st, agCtor [0, 1, 2, 3, 4, 5, 6] 2 = .ok st ∧ st.indices = [0, 2, 4, 6, 1, 3, 5] ∧
+    agGetall st = .ok [0, 2, 4, 6, 1, 3, 5] := ⟨_, rfl, by decide, by decide⟩
+
+/-! ## KDPseudoLabelWrapper -/
+
+/-- the bulk accessor either is `NotImplementedError` (sampled pseudo labels: `topk` / `tau` given) or equals the
+    per-sample accessor entry by entry — whatever the draws `d` (none is read on that path); hard tables, argmax of
+    soft tables and thresholded soft tables alike -/
+theorem pseudoLabel_bulk_eq_items_or_notImplemented (n C : Nat) (table : PTable) (thr : Option (List Bool))
+    (topk : Option Nat) (tau : Tau) (topkIdx : List (List Nat)) (st : PL)
+    (hctor : plCtor n C table thr topk tau topkIdx = .ok st) :
+    plGetall st = .error .notImplemented ∨
+      ∀ d : Nat → Nat, plGetall st = forRange st.n (fun i => plGetitem st i (d i)) := by
+  by_cases hsamp : st.tau ≠ .none ∨ st.topk.isSome
+  · left; simp [plGetall, hsamp]
+  · right
+    intro d
+    have htau : st.tau = .none := by
+      cases ht : st.tau <;> simp_all
+    have htopk : st.topk = none := by
+      cases hk : st.topk <;> simp_all
+    have hitem : ∀ i dr, plGetitem st i dr = plGetitem st i 0 := by
+      intro i dr
+      simp [plGetitem, htopk]
+    unfold plGetall
+    simp only [hsamp, if_false]
+    by_cases hthr : st.thr.isSome
+    · simp only [hthr, if_true]
+      exact forRange_congr _ (fun i _ => (hitem i (d i)).symm)
+    · simp only [hthr]
+      have hthr' : st.thr = none := by
+        cases h : st.thr <;> simp_all
+      unfold plCtor at hctor
+      cases htab : table with
+      | hard ls =>
+        rw [htab] at hctor
+        by_cases hl : ls.length = n
+        · simp only [hl, if_true, Except.ok.injEq] at hctor
+          have e1 : st.table = .hard ls := by rw [← hctor]
+          have e2 : st.n = n := by rw [← hctor]
+          rw [e1, e2, ← hl]
+          simp only [Bool.false_eq_true, if_false]
+          rw [← forRange_listGet ls]
+          apply forRange_congr
+          intro i _
+          simp [plGetitem, htopk, htau, e1, hthr']
+        · simp [hl] at hctor
+      | soft rows =>
+        rw [htab] at hctor
+        simp only at hctor
+        by_cases hl : rows.length = n ∧ rows.all (fun r => r.length == C) = true
+        · rw [if_pos hl] at hctor
+          simp only [Except.ok.injEq] at hctor
+          have e1 : st.table = .soft rows := by rw [← hctor]
+          have e2 : st.n = n := by rw [← hctor]
+          rw [e1, e2, ← hl.1]
+          simp only [Bool.false_eq_true, if_false]
+          rw [← forEnumFrom_pure' (fun r => (argmax r : Int)) rows 0]
+          apply forEnum_eq_forRange
+          intro j hj
+          simp [plGetitem, htopk, htau, e1, hthr', listGet_of_lt _ _ hj]
+        · rw [if_neg hl] at hctor; cases hctor
+
+/-- **range**: hard labels are the table's entries; argmax / thresholded labels are a column position or -1;
+    sampled labels are one of the top-k positions — all below the class count the constructor checked the table
+    against (`torch.topk` returns positions of the row: hypothesis `htk`) -/
+theorem pseudoLabel_in_range (n C : Nat) (table : PTable) (thr : Option (List Bool))
+    (topk : Option Nat) (tau : Tau) (topkIdx : List (List Nat)) (st : PL) (hC : 0 < C)
+    (hhard : ∀ ls, table = .hard ls → ∀ c ∈ ls, InRange C c)
+    (htk : ∀ ids ∈ topkIdx, ∀ c ∈ ids, c < C)
+    (hctor : plCtor n C table thr topk tau topkIdx = .ok st) :
+    (∀ i d l, plGetitem st i d = .ok l → InRange C l) ∧ (∀ out, plGetall st = .ok out → ∀ l ∈ out, InRange C l) := by
+  have hst : st.table = table ∧ st.topkIdx = topkIdx ∧
+      (∀ rows, table = .soft rows → ∀ r ∈ rows, r.length = C) := by
+    unfold plCtor at hctor
+    cases htab : table with
+    | hard ls =>
+      rw [htab] at hctor
+      by_cases hl : ls.length = n
+      · simp only [hl, if_true, Except.ok.injEq] at hctor
+        subst hctor
+        exact ⟨rfl, rfl, fun rows h => by cases h⟩
+      · simp [hl] at hctor
+    | soft rows =>
+      rw [htab] at hctor
+      simp only at hctor
+      by_cases hl : rows.length = n ∧ rows.all (fun r => r.length == C) = true
+      · rw [if_pos hl] at hctor
+        simp only [Except.ok.injEq] at hctor
+        subst hctor
+        refine ⟨rfl, rfl, fun rows' h r hr => ?_⟩
+        cases h
+        have := List.all_eq_true.mp hl.2 r hr
+        simpa using this
+      · rw [if_neg hl] at hctor; cases hctor
+  obtain ⟨e1, e2, hrows⟩ := hst
+  have hargmax : ∀ rows, table = .soft rows → ∀ r ∈ rows, InRange C (argmax r : Int) := by
+    intro rows h r hr
+    have hlen := hrows rows h r hr
+    have := argmax_lt r (by omega)
+    exact Or.inr ⟨Int.natCast_nonneg _, Int.ofNat_lt.mpr (by omega)⟩
+  have hitem : ∀ i d l, plGetitem st i d = .ok l → InRange C l := by
+    intro i d l h
+    unfold plGetitem at h
+    rw [e1, e2] at h
+    cases hk : st.topk with
+    | some k =>
+      rw [hk] at h
+      simp only at h
+      by_cases ht : st.thr.isSome
+      · simp [ht] at h
+      · simp only [ht] at h
+        cases htab : table with
+        | hard ls => rw [htab] at h; simp at h
+        | soft rows =>
+          rw [htab] at h
+          simp only at h
+          cases hr : listGet rows i with
+          | error e => rw [hr] at h; simp at h
+          | ok row =>
+            rw [hr] at h
+            simp only at h
+            by_cases hkr : k > row.length
+            · simp [hkr] at h
+            · simp only [hkr, if_false] at h
+              cases hti : topkIdx[i]? with
+              | none => rw [hti] at h; simp at h
+              | some ids =>
+                rw [hti] at h
+                simp only at h
+                cases hc : listGet ids d with
+                | error e => rw [hc] at h; simp at h
+                | ok c =>
+                  rw [hc] at h
+                  simp only [Bool.false_eq_true, if_false, Except.ok.injEq] at h
+                  subst h
+                  have := htk ids (List.mem_of_getElem? hti) c (listGet_mem hc)
+                  exact Or.inr ⟨Int.natCast_nonneg _, Int.ofNat_lt.mpr this⟩
+    | none =>
+      rw [hk] at h
+      simp only at h
+      by_cases htau : st.tau ≠ .none
+      · simp [htau] at h
+      · simp only [htau, if_false] at h
+        cases htab : table with
+        | hard ls =>
+          rw [htab] at h
+          simp only at h
+          by_cases ht : st.thr.isSome
+          · simp [ht] at h
+          · simp only [ht] at h
+            exact hhard ls htab l (listGet_mem h)
+        | soft rows =>
+          rw [htab] at h
+          simp only at h
+          cases hr : listGet rows i with
+          | error e => rw [hr] at h; simp at h
+          | ok row =>
+            rw [hr] at h
+            simp only at h
+            have hrow := hargmax rows htab row (listGet_mem hr)
+            cases hthr : st.thr with
+            | none =>
+              rw [hthr] at h
+              simp only [Except.ok.injEq] at h
+              subst h
+              exact hrow
+            | some bits =>
+              rw [hthr] at h
+              simp only at h
+              cases hb : bits[i]? with
+              | none => rw [hb] at h; simp at h
+              | some b =>
+                rw [hb] at h
+                simp only [Except.ok.injEq] at h
+                subst h
+                cases b
+                · exact Or.inl rfl
+                · exact hrow
+  refine ⟨hitem, ?_⟩
+  intro out h l hl
+  unfold plGetall at h
+  by_cases hsamp : st.tau ≠ .none ∨ st.topk.isSome
+  · simp [hsamp] at h
+  · simp only [hsamp, if_false] at h
+    by_cases hthr : st.thr.isSome
+    · simp only [hthr, if_true] at h
+      obtain ⟨i, _, hi⟩ := mapE_mem _ out h l hl
+      exact hitem i 0 l hi
+    · simp only [hthr] at h
+      rw [e1] at h
+      cases htab : table with
+      | hard ls =>
+        rw [htab] at h
+        simp only [Bool.false_eq_true, if_false, Except.ok.injEq] at h
+        subst h
+        exact hhard ls htab l hl
+      | soft rows =>
+        rw [htab] at h
+        simp only [Bool.false_eq_true, if_false, Except.ok.injEq] at h
+        subst h
+        obtain ⟨r, hr, rfl⟩ := List.mem_map.mp hl
+        exact hargmax rows htab r hr
+
+/-- non-vacuity: thresholded soft table (first row below the threshold), and a top-2 table -/
+example : ∃ st, plCtor 2 3 (.soft [[1, 1, 1], [0, 3, 1]]) (some [false, true]) none .none [] = .ok st ∧
+    plGetall st = .ok [-1, 1] ∧ plGetitem st 0 0 = .ok (-1) ∧ plGetitem st 1 0 = .ok 1 :=
+  ⟨_, rfl, by decide, by decide, by decide⟩
+
+example : ∃ st, plCtor 2 3 (.soft [[1, 1, 1], [0, 3, 1]]) none (some 2) .inf [[0, 1], [1, 2]] = .ok st ∧
+    plGetall st = .error .notImplemented ∧ plGetitem st 1 1 = .ok 2 :=
+  ⟨_, rfl, by decide, by decide⟩
+
+/-! ## KDRandomClassWrapper -/
+
+theorem randomClass_bulk_eq_items (classes : List Nat) :
+    rcGetall classes = forRange classes.length (rcGetitem classes) := by
+  unfold rcGetall
+  rw [← forEnumFrom_pure' (fun (c : Nat) => (c : Int)) classes 0]
+  apply forEnum_eq_forRange
+  intro j hj
+  simp [rcGetitem, listGet_of_lt _ _ hj]
+
+/-- **range**: in each of the three modes every generated class is below `num_classes = getshape_class()[0]`
+    (`randint` draws below `nc`; `randperm` is a permutation of `range nc`; the gather mode rearranges `arange`) -/
+theorem randomClass_in_range (n nc : Nat) (mode : RCMode) (ints perm classes : List Nat)
+    (hints : ∀ v ∈ ints, v < nc) (hperm : perm.Perm (List.range nc))
+    (hctor : rcCtor n nc mode ints perm = .ok classes) :
+    (∀ c ∈ classes, c < nc) ∧ (∀ i l, rcGetitem classes i = .ok l → 0 ≤ l ∧ l < (nc : Int)) ∧
+    (∀ out, rcGetall classes = .ok out → ∀ l ∈ out, 0 ≤ l ∧ l < (nc : Int)) := by
+  have hcl : ∀ c ∈ classes, c < nc := by
+    unfold rcCtor at hctor
+    cases mode with
+    | random =>
+      simp only [Except.ok.injEq] at hctor
+      subst hctor
+      exact hints
+    | randperm =>
+      simp only at hctor
+      by_cases h0 : nc = 0
+      · simp [h0] at hctor
+      · simp only [h0, if_false, Except.ok.injEq] at hctor
+        subst hctor
+        intro c hc
+        unfold repeatTake at hc
+        have h1 := List.mem_of_mem_take hc
+        simp only [List.mem_flatten, List.mem_replicate] at h1
+        obtain ⟨l, ⟨_, rfl⟩, hcl⟩ := h1
+        exact List.mem_range.mp (hperm.mem_iff.mp hcl)
+    | gatherbug W =>
+      simp only at hctor
+      by_cases h0 : nc = 0
+      · simp [h0] at hctor
+      · simp only [h0, if_false] at hctor
+        by_cases hW : W = 0
+        · simp [hW] at hctor
+        · simp only [hW, if_false] at hctor
+          have hbase : ∀ c ∈ ((List.range nc).flatMap (fun c => List.replicate ((n + nc - 1) / nc) c)).take n, c < nc := by
+            intro c hc
+            have h1 := List.mem_of_mem_take hc
+            simp only [List.mem_flatMap, List.mem_range, List.mem_replicate] at h1
+            obtain ⟨a, ha, _, rfl⟩ := h1
+            exact ha
+          cases hr : rearrange (if padCount n W > 0 then
+              ((List.range nc).flatMap (fun c => List.replicate ((n + nc - 1) / nc) c)).take n ++
+                (((List.range nc).flatMap (fun c => List.replicate ((n + nc - 1) / nc) c)).take n).take (padCount n W)
+            else ((List.range nc).flatMap (fun c => List.replicate ((n + nc - 1) / nc) c)).take n) W with
+          | error e => rw [hr] at hctor; simp at hctor
+          | ok c2 =>
+            rw [hr] at hctor
+            simp only [Except.ok.injEq] at hctor
+            have hc2 : ∀ c ∈ c2, c < nc := by
+              intro c hc
+              have h1 := rearrange_mem hr c hc
+              by_cases hp : padCount n W > 0
+              · simp only [hp, if_true] at h1
+                rcases List.mem_append.mp h1 with h | h
+                · exact hbase c h
+                · exact hbase c (List.mem_of_mem_take h)
+              · simp only [hp, if_false] at h1
+                exact hbase c h1
+            subst hctor
+            intro c hc
+            by_cases hp : padCount n W > 0
+            · simp only [hp, if_true] at hc
+              exact hc2 c (List.mem_of_mem_take hc)
+            · simp only [hp, if_false] at hc
+              exact hc2 c hc
+    | other => simp at hctor
+  have hitem : ∀ i l, rcGetitem classes i = .ok l → 0 ≤ l ∧ l < (nc : Int) := by
+    intro i l h
+    unfold rcGetitem at h
+    cases hg : listGet classes i with
+    | error e => rw [hg] at h; cases h
+    | ok c =>
+      rw [hg] at h
+      simp only [Except.ok.injEq] at h
+      subst h
+      exact ⟨Int.natCast_nonneg _, Int.ofNat_lt.mpr (hcl c (listGet_mem hg))⟩
+  refine ⟨hcl, hitem, ?_⟩
+  intro out h l hl
+  simp only [rcGetall, Except.ok.injEq] at h
+  subst h
+  obtain ⟨c, hc, rfl⟩ := List.mem_map.mp hl
+  exact ⟨Int.natCast_nonneg _, Int.ofNat_lt.mpr (hcl c hc)⟩
+
+/-- the generated table has one class per sample in every mode (so the bulk accessor, which returns the table, has
+    `len(dataset)` entries), given `randint` / `randperm` return the requested number of entries -/
+theorem randomClass_length (n nc : Nat) (mode : RCMode) (ints perm classes : List Nat)
+    (hints : ints.length = n) (hperm : perm.length = nc)
+    (hctor : rcCtor n nc mode ints perm = .ok classes) : classes.length = n := by
+  unfold rcCtor at hctor
+  cases mode with
+  | random =>
+    simp only [Except.ok.injEq] at hctor
+    subst hctor
+    exact hints
+  | randperm =>
+    simp only at hctor
+    by_cases h0 : nc = 0
+    · simp [h0] at hctor
+    · simp only [h0, if_false, Except.ok.injEq] at hctor
+      subst hctor
+      unfold repeatTake
+      rw [List.length_take, flatten_replicate_length, hperm]
+      have := le_ceilDiv_mul n nc (Nat.pos_of_ne_zero h0)
+      omega
+  | gatherbug W =>
+    simp only at hctor
+    by_cases h0 : nc = 0
+    · simp [h0] at hctor
+    · simp only [h0, if_false] at hctor
+      by_cases hW : W = 0
+      · simp [hW] at hctor
+      · simp only [hW, if_false] at hctor
+        have hbase : (((List.range nc).flatMap (fun c => List.replicate ((n + nc - 1) / nc) c)).take n).length = n := by
+          rw [List.length_take, flatMap_length_const ((n + nc - 1) / nc) _ (fun c _ => by simp)]
+          have := le_ceilDiv_mul n nc (Nat.pos_of_ne_zero h0)
+          unfold ceilDiv at this
+          simp only [List.length_range]
+          rw [Nat.mul_comm] at this
+          omega
+        cases hr : rearrange (if padCount n W > 0 then
+            ((List.range nc).flatMap (fun c => List.replicate ((n + nc - 1) / nc) c)).take n ++
+              (((List.range nc).flatMap (fun c => List.replicate ((n + nc - 1) / nc) c)).take n).take (padCount n W)
+          else ((List.range nc).flatMap (fun c => List.replicate ((n + nc - 1) / nc) c)).take n) W with
+        | error e => rw [hr] at hctor; simp at hctor
+        | ok c2 =>
+          rw [hr] at hctor
+          simp only [Except.ok.injEq] at hctor
+          have hl := rearrange_length hr
+          subst hctor
+          by_cases hp : padCount n W > 0
+          · simp only [hp, if_true] at hl ⊢
+            rw [List.length_take, hl, List.length_append, hbase]
+            omega
+          · simp only [hp, if_false] at hl ⊢
+            rw [hl, hbase]
+  | other => simp at hctor
+
+example : rcCtor 7 4 (.gatherbug 2) [] [] = .ok [0, 1, 2, 3, 0, 1, 2] ∧
+    rcCtor 5 3 .randperm [] [2, 0, 1] = .ok [2, 0, 1, 2, 0] ∧ [2, 0, 1].Perm (List.range 3) :=
+  ⟨by decide, by decide, by decide⟩
+
+/-! ## SemiWrapper -/
+
+/-- the in-place loop of the bulk accessor writes -1 exactly where the per-sample accessor answers -1 -/
+theorem semi_bulk_eq_items (labels : List Int) (pOk : Bool) (k : Nat) (perm : List Nat) (st : SM)
+    (hperm : ∀ i ∈ perm, i < labels.length) (hctor : smCtor labels pOk k perm = .ok st) :
+    smGetall st = forRange labels.length (smGetitem st) := by
+  unfold smCtor at hctor
+  cases hp : pOk with
+  | false => rw [hp] at hctor; simp at hctor
+  | true =>
+    rw [hp] at hctor
+    simp only [if_true, Except.ok.injEq] at hctor
+    subst hctor
+    unfold smGetall
+    simp only
+    rw [setAll_spec _ _ (fun i hi => hperm i (List.mem_of_mem_take hi))]
+    rw [← forEnumFrom_pure (fun i c => if i ∈ perm.take k then (-1 : Int) else c) labels 0]
+    apply forEnum_eq_forRange
+    intro j hj
+    unfold smGetitem
+    simp only
+    by_cases hm : j ∈ perm.take k
+    · simp [hm]
+    · simp [hm, dsGet, listGet_of_lt _ _ hj]
+
+/-- **range**: a produced label is -1 or the wrapped dataset's label -/
+theorem semi_in_range (st : SM) (nc : Nat) (hl : ∀ c ∈ st.labels, InRange nc c) :
+    ∀ i l, smGetitem st i = .ok l → InRange nc l := by
+  intro i l h
+  unfold smGetitem at h
+  by_cases hm : i ∈ st.semi
+  · simp only [hm, if_true, Except.ok.injEq] at h
+    subst h
+    exact Or.inl rfl
+  · simp only [hm, if_false] at h
+    exact hl l (listGet_mem h)
+
+/-- the same for the bulk accessor -/
+theorem semi_bulk_in_range (labels : List Int) (pOk : Bool) (k : Nat) (perm : List Nat) (st : SM) (nc : Nat)
+    (hperm : ∀ i ∈ perm, i < labels.length) (hl : ∀ c ∈ labels, InRange nc c)
+    (hctor : smCtor labels pOk k perm = .ok st) : ∀ out, smGetall st = .ok out → ∀ l ∈ out, InRange nc l := by
+  intro out h l hlm
+  rw [semi_bulk_eq_items labels pOk k perm st hperm hctor] at h
+  obtain ⟨i, _, hi⟩ := mapE_mem _ out h l hlm
+  have hlab : st.labels = labels := by
+    unfold smCtor at hctor
+    cases hp : pOk with
+    | false => rw [hp] at hctor; simp at hctor
+    | true => rw [hp] at hctor; simp only [if_true, Except.ok.injEq] at hctor; rw [← hctor]
+  exact semi_in_range st nc (by rw [hlab]; exact hl) i l hi
+
+example : ∃ st, smCtor [0, 1, 2, 3] true 2 [3, 1, 0, 2] = .ok st ∧ smGetall st = .ok [0, -1, 2, -1] :=
+  ⟨_, rfl, by decide⟩
+
+/-! ## LabelSmoothingWrapper -/
+
+/-- **smoothed labels**: for `0 < smoothing ≤ 1`, at least two classes and a label `0 ≤ y < nc` the per-sample result
+    is a vector of `nc` non-negative entries that sum to one and whose maximum sits at the original class —
+    strictly so whenever `smoothing < 1` (for `smoothing = 1` all entries equal `1 / nc`) -/
+theorem smoothing_simplex_argmax (s : Rat) (nc : Nat) (y : Int) (hs0 : 0 < s) (hs1 : s ≤ 1) (hnc : 2 ≤ nc)
+    (hy0 : 0 ≤ y) (hy : y < (nc : Int)) :
+    ∃ v, lsEncode s nc y = .ok (.vec v) ∧ v.length = nc ∧ (∀ x ∈ v, 0 ≤ x) ∧ v.sum = 1 ∧
+      (∀ k (hk : k < v.length) (hc : y.toNat < v.length), v[k] ≤ v[y.toNat]) ∧
+      (s < 1 → ∀ k (hk : k < v.length) (hc : y.toNat < v.length), k ≠ y.toNat → v[k] < v[y.toNat]) := by
+  obtain ⟨c, rfl⟩ := Int.eq_ofNat_of_zero_le hy0
+  have hc : c < nc := by omega
+  have hs : ¬ s = 0 := by grind
+  have h1 : ¬ ((c : Int) = -1) := by omega
+  have h2 : ¬ nc = 1 := by omega
+  have h3 : ¬ nc = 0 := by omega
+  have h4 : ¬ ((c : Int) < 0) := by omega
+  have h5 : ¬ ((c : Int) < 0 ∨ (nc : Int) ≤ (c : Int)) := by omega
+  have hoff : 0 ≤ s / (nc : Rat) := div_natCast_nonneg s nc (Rat.le_of_lt hs0) (by omega)
+  refine ⟨(List.replicate nc (s / (nc : Rat))).set c (1 - s + s / (nc : Rat)), ?_, ?_, ?_, ?_, ?_, ?_⟩
+  · simp [lsEncode, hs, h1, h2, h3, h4, hc]
+  · simp
+  · intro x hx
+    rcases List.mem_or_eq_of_mem_set hx with h | h
+    · rw [(List.mem_replicate.mp h).2]; exact hoff
+    · rw [h]; grind
+  · exact smoothed_sum s nc c h3 hc
+  · intro k hk hcl
+    simp only [Int.toNat_natCast, List.getElem_set, List.getElem_replicate]
+    by_cases hkc : c = k
+    · simp [hkc]
+    · simp only [hkc, if_false, if_true]; grind
+  · intro hlt k hk hcl hne
+    simp only [Int.toNat_natCast] at hne
+    have hkc : ¬ c = k := fun e => hne e.symm
+    simp only [Int.toNat_natCast, List.getElem_set, List.getElem_replicate, hkc, if_false, if_true]
+    grind
+
+/-- `smoothing == 0` returns the label itself, an unlabeled sample (-1) stays recognisably unlabeled -/
+theorem smoothing_zero_and_unlabeled (s : Rat) (nc : Nat) (y : Int) :
+    lsEncode 0 nc y = .ok (.cls y) ∧ (s ≠ 0 → lsEncode s nc (-1) = .ok (.vec (List.replicate nc (-1)))) := by
+  constructor
+  · simp [lsEncode]
+  · intro h; simp [lsEncode, h]
+
+/-- binary case (`getdim_class() = 1`, label 0 or 1): the smoothed scalar stays in `[0, 1]` on the label's side of
+    `1/2`, strictly for `smoothing < 1` -/
+theorem smoothing_binary (s : Rat) (hs0 : 0 < s) (hs1 : s ≤ 1) :
+    (∃ q, lsEncode s 1 1 = .ok (.scalar q) ∧ 1 / 2 ≤ q ∧ q ≤ 1 ∧ (s < 1 → 1 / 2 < q)) ∧
+    (∃ q, lsEncode s 1 0 = .ok (.scalar q) ∧ 0 ≤ q ∧ q ≤ 1 / 2 ∧ (s < 1 → q < 1 / 2)) := by
+  have hs : ¬ s = 0 := by grind
+  constructor
+  · refine ⟨1 - s / 2, ?_, ?_, ?_, ?_⟩
+    · have : (1 / 2 : Rat) < 1 := by grind
+      simp [lsEncode, hs, this]
+    · grind
+    · grind
+    · intro h; grind
+  · refine ⟨s / 2, ?_, ?_, ?_, ?_⟩
+    · have : ¬ (1 / 2 : Rat) < 0 := by grind
+      simp [lsEncode, hs, this]
+      grind
+    · grind
+    · grind
+    · intro h; grind
+
+/-- **bulk path of the encoding wrappers**: it is the wrapped dataset's (class indices), and entry `i` is the argmax
+    of the per-sample smoothed vector -/
+theorem smoothing_bulk_is_argmax (s : Rat) (nc : Nat) (labels : List Int) (i : Nat) (hi : i < labels.length)
+    (hs0 : 0 < s) (hs1 : s ≤ 1) (hnc : 2 ≤ nc) (hy0 : 0 ≤ labels[i]) (hy : labels[i] < (nc : Int)) :
+    encGetall labels = .ok labels ∧
+    ∃ v, lsGetitem s nc labels i = .ok (.vec v) ∧ v.length = nc ∧
+      ∀ k (hk : k < v.length) (hc : labels[i].toNat < v.length), v[k] ≤ v[labels[i].toNat] := by
+  refine ⟨rfl, ?_⟩
+  obtain ⟨v, h1, h2, _, _, h5, _⟩ := smoothing_simplex_argmax s nc labels[i] hs0 hs1 hnc hy0 hy
+  exact ⟨v, by simp [lsGetitem, dsGet, listGet_of_lt _ _ hi, h1], h2, h5⟩
+
+/-- non-vacuity: smoothing 1/10 over 3 classes -/
+example : lsEncode (1 / 10) 3 1 = .ok (.vec [1 / 30, 14 / 15, 1 / 30]) := by decide +kernel
+
+/-! ## OneHotWrapper -/
+
+/-- **one-hot**: for a label `0 ≤ y < nc` the result has `nc` entries, each 0 or 1 (hence non-negative), summing to one,
+    with the 1 at the original class (strict argmax) -/
+theorem onehot_simplex_argmax (nc : Nat) (y : Int) (hy0 : 0 ≤ y) (hy : y < (nc : Int)) :
+    ∃ v, ohEncode nc y = .ok v ∧ v.length = nc ∧ (∀ x ∈ v, x = 0 ∨ x = 1) ∧ (∀ x ∈ v, 0 ≤ x) ∧ v.sum = 1 ∧
+      (∀ k (hk : k < v.length), v[k] = if k = y.toNat then 1 else 0) := by
+  obtain ⟨c, rfl⟩ := Int.eq_ofNat_of_zero_le hy0
+  have hc : c < nc := by omega
+  have h5 : ¬ ((c : Int) < 0 ∨ (nc : Int) ≤ (c : Int)) := by omega
+  refine ⟨(List.range nc).map (fun (k : Nat) => if (k : Int) = (c : Int) then (1 : Rat) else 0), ?_, ?_, ?_, ?_, ?_, ?_⟩
+  · simp [ohEncode, hc]
+  · simp
+  · intro x hx
+    obtain ⟨k, _, rfl⟩ := List.mem_map.mp hx
+    by_cases h : (k : Int) = (c : Int) <;> simp [h]
+  · intro x hx
+    obtain ⟨k, _, rfl⟩ := List.mem_map.mp hx
+    by_cases h : (k : Int) = (c : Int) <;> simp [h] <;> grind
+  · rw [indicator_sum c nc]; simp [hc]
+  · intro k hk
+    simp only [List.getElem_map, List.getElem_range, Int.toNat_natCast]
+    by_cases h : k = c
+    · subst h; simp
+    · have : ¬ ((k : Int) = (c : Int)) := by omega
+      simp [h, this]
+
+/-- the bulk path yields the class index, which is where the per-sample one-hot vector has its 1 -/
+theorem onehot_bulk_is_argmax (nc : Nat) (labels : List Int) (i : Nat) (hi : i < labels.length)
+    (hy0 : 0 ≤ labels[i]) (hy : labels[i] < (nc : Int)) :
+    encGetall labels = .ok labels ∧
+    ∃ v, ohGetitem nc labels i = .ok v ∧ v.length = nc ∧
+      ∀ k (hk : k < v.length), v[k] = if k = labels[i].toNat then 1 else 0 := by
+  refine ⟨rfl, ?_⟩
+  obtain ⟨v, h1, h2, _, _, _, h6⟩ := onehot_simplex_argmax nc labels[i] hy0 hy
+  exact ⟨v, by simp [ohGetitem, dsGet, listGet_of_lt _ _ hi, h1], h2, h6⟩
+
+example : ohEncode 3 2 = .ok [0, 0, 1] := by decide +kernel
+
+/-! ## the mapping is a function of the constructor arguments and the draws -/
+
+/-- Every accessor of the model takes the constructor arguments and the tape of draws and nothing else (no clock, no
+    global state, no call counter): equal arguments and equal draws give equal per-sample and bulk results. The content of
+    this statement is the *signature* of the model; that the code has no further input is what the correspondence
+    (recorded draws replayed into the model) and the oracle (second construction under a scrambled global RNG state)
+    check on every run. -/
+theorem label_pure (labels labels' : List Int) (nc nc' cpg cpg' : Nat) (sh sh' : Bool) (t t' : List Nat)
+    (h1 : labels = labels') (h2 : nc = nc') (h3 : cpg = cpg') (h4 : sh = sh') (h5 : t = t') :
+    cgCtor labels nc cpg sh t = cgCtor labels' nc' cpg' sh' t' ∧
+    (∀ p1 p2, rsCtor labels nc cpg 1 sh t p1 = rsCtor labels' nc' cpg' 1 sh' t' p2 ∨ p1 ≠ p2) ∧
+    agCtor labels nc = agCtor labels' nc' ∧ smCtor labels sh cpg t = smCtor labels' sh' cpg' t' := by
+  subst h1 h2 h3 h4 h5
+  refine ⟨rfl, fun p1 p2 => ?_, rfl, rfl⟩
+  by_cases h : p1 = p2
+  · subst h; exact Or.inl rfl
+  · exact Or.inr h
 
 end KDVerif.C16
